@@ -264,6 +264,33 @@ func (f *Frame) specCall(st *State, e *ast.CallExpr, kind string) []*Term {
 			return []*Term{Eq(item, App("HB", "HItem", v))}
 		}
 		return []*Term{Eq(item, App("HI", "HItem", v))}
+	case kind == "hashedSame":
+		// hashedSame(a, i, b, j): item i written to a is item j written to b
+		c.hitemSort()
+		it := c.heapGet(st, "HS!items", ArrSort(SInt, ArrSort(SInt, "HItem")))
+		ref := func(x ast.Expr) *Term {
+			h := f.expr(st, x)
+			if h.Sort == SIfc {
+				h = ifaceRef(h)
+			}
+			return h
+		}
+		a, b := ref(e.Args[0]), ref(e.Args[2])
+		return []*Term{Eq(Select(Select(it, a), f.expr(st, e.Args[1])), Select(Select(it, b), f.expr(st, e.Args[3])))}
+	case kind == "hashedKept":
+		// hashedKept(w, j): item j written to w is the one that was there in the old state
+		if f.specOld == nil {
+			f.fail(e, "hashedKept() outside two-state context")
+		}
+		c.hitemSort()
+		h := f.expr(st, e.Args[0])
+		if h.Sort == SIfc {
+			h = ifaceRef(h)
+		}
+		j := f.expr(st, e.Args[1])
+		it := c.heapGet(st, "HS!items", ArrSort(SInt, ArrSort(SInt, "HItem")))
+		it0 := c.heapGet(f.specOld, "HS!items", ArrSort(SInt, ArrSort(SInt, "HItem")))
+		return []*Term{Eq(Select(Select(it, h), j), Select(Select(it0, h), j))}
 	case kind == "lastStr":
 		k := f.expr(st, e.Args[0])
 		return []*Term{Select(c.heapGet(st, "G!laststr", ArrSort(SStr, SStr)), k)}
@@ -357,9 +384,12 @@ func (f *Frame) specCall(st *State, e *ast.CallExpr, kind string) []*Term {
 		if v.Sort == SIfc {
 			v = ifaceRef(v)
 		}
-		return []*Term{Not(Select(c.heapGet(f.specOld, "ALLOC", ArrSort(SInt, SBool)), v))}
+		return []*Term{And(Ne(v, IntLit(0)), Not(Select(c.heapGet(f.specOld, "ALLOC", ArrSort(SInt, SBool)), v)))}
 	case kind == "allocated":
 		v := f.expr(st, e.Args[0])
+		if v.Sort == SIfc {
+			v = ifaceRef(v)
+		}
 		return []*Term{Select(c.heapGet(st, "ALLOC", ArrSort(SInt, SBool)), v)}
 	case kind == "itPos" || kind == "itLen":
 		v := f.expr(st, e.Args[0])
